@@ -11,11 +11,12 @@ CFG = dict(
     ],
     crate="nvh_c04",
     header=H + "From NV.C04 Require Import Types Model Run.\nOpen Scope N_scope.",
-    kinds={"scen": ("scen_case", "check_scen")},
+    kinds={"scen": ("scen_case", "check_scen"), "budget": ("scen_case", "check_budget")},
     known_classes={},
     shard=12,
     rule="seeded schemas (1-3 columns over Int/Float/String/Bool, nullable or not), DML/DDL traces and condition trees (extreme ints, NaN/inf/-0/subnormal floats, empty and non-ASCII strings, _id, unknown columns, NULL, cross-type literals); every strategy of the real engine on the same table",
     trusted_base=COMMON_TB + [
+        "the model has no B-tree entry budget (max_btree_entries): cases that exhaust it (kind `budget`: tiny budgets, statements failing half-way, transactions) are judged by the property oracle on the implementation's observations only",
         "modelled, not verified: bitmap word packing and SIMD lanes (harness uses tables wider than 64 rows), timeouts and result-size limits, the transaction manager around update/delete, Bytes/Json columns, sum/avg (float addition: implementation-only oracle), the streaming cursor (implementation-only oracle), DefaultHasher on strings (modelled injective; collisions only add candidates that the re-check removes)",
         "text path: QueryRouter::execute_parsed on `SELECT * FROM t WHERE <fully parenthesised condition>`; literals the text cannot express (negative numbers, NaN/inf, quotes) are skipped",
     ],
